@@ -30,7 +30,9 @@ CLAIMED = {
             "world keep up to 6 (and up to 62) queries open across operations, advance and close them in arbitrary order, "
             "attempt every structural operation while locked (must panic, nothing may change), use Set / events / filter "
             "(un)registration / nested queries while locked (must work), close finished queries again, and the monitor "
-            "compares IsLocked with the specification after every event.", "7 C07"),
+            "compares IsLocked with the specification after every event.  ArkCursorMC (LockExact, ClosedIsFinal) and every call "
+            "sequence on every query kind; registration of a never-seen component type on a locked world must panic and leave "
+            "the registry (type count, relation flags) as it was.", "7 C07"),
     "C08": ("Fires(observer, event, changed, composition) is transcribed from the documentation into layer A; every replayed "
             "operation's callbacks (observer, entity) are compared as a set with the specification's expectation: missing, "
             "spurious and repeated callbacks, for random sets of up to 5 simultaneously registered observers drawn from the "
@@ -47,12 +49,13 @@ CLAIMED = {
             "and an identical projection, entity count and lock state afterwards.", "7 C10"),
     "C16": ("Reset of layer A is the initial world (registries kept).  Histories with Reset at generator/driver-chosen points "
             "continue to be validated against the specification; filter and observer objects registered before are registered "
-            "again after Reset; a disagreement is attributed to C16 iff the history after the Reset is clean on a fresh world "
-            "(differential).", "7 C16"),
+            "again after Reset; resources (layer A: w.res, family res) are gone after Reset; a disagreement is attributed to C16 "
+            "iff the history after the Reset is clean on a fresh world (differential).", "7 C16"),
     "C17": ("Every free-list shape of a small pool (TLC, family dump) and long recycle histories (driver): dump (through JSON), "
             "load into a fresh or a used-and-reset second world, compare Alive of every handle ever issued, and the handles "
             "the next creations return in both worlds; handles travel through the JSON and binary codecs; binary input of "
-            "every length 0..16 except 8 must be rejected.", "7 C17"),
+            "every length 0..16 except 8 - as a slice of its own and as a window into a larger buffer - must be rejected with "
+            "an error (not accepted, not a panic).", "7 C17"),
     "C19": ("The monitor checks the algebra of every recorded Stats() record against the specification's world (used = alive "
             "= sum of archetype and table sizes, per-composition counts, total = used + recycled <= capacity, distinct "
             "archetypes, size <= capacity, memory products and sums, filter / observer / lock figures) and its equality with "
@@ -77,12 +80,14 @@ CLAIMED = {
             "relations by index and by type) and through the ID-based API; each run is validated against layer A (values "
             "encode the component, so mis-ordered pointers are wrong values; query pointers must equal mapper pointers), "
             "the pair is compared by creation ordinal by ArkProd; the check is inconclusive unless every generated variant "
-            "was exercised.", "7 C14"),
+            "was exercised.  Every call sequence (Next / Entity / Get / Close / Count / EntityAt) on Query1..8 and on the "
+            "ID-based query with the same component list is compared with the cursor model ArkCursor.", "7 C14"),
     "C18": ("ArkReg.tla: registry and mask-to-component-list conversion with the word arithmetic kept and the constants scaled "
             "down so that 'all ids registered' is reachable: ids sequential, stable, injective; every mask over registered ids "
             "usable; over-limit and locked registration panic without consuming an id; resources a partial map.  Conformance at "
             "the real limits: 256 (64 with ark_tiny) types registered in random order with repeats, entities / filters / queries "
-            "over the highest ids and every word boundary, validated event by event.", "7 C18"),
+            "over the highest ids and every word boundary, validated event by event; resources inside world histories (layer A "
+            "w.res, family res: Add / Remove / writes through Get / Reset / Load, typed, ID-based and free-function API).", "7 C18"),
     "C20": ("Product traces of the four builds (none, ark_tiny, ark_debug, both) over TLC- and driver-generated histories incl. "
             "misuse calls and a battery of query / mapper accessor misuse (Get / Entity before Next, after exhaustion, after "
             "Close; Next after Close; access to missing components; partial Set): equal results and panic / no panic per call.",
